@@ -245,6 +245,10 @@ def d5(chk, prog):
 
 def d6(chk, prog):
     chk.clause("D6", "center_by_window: one seeded permutation for bins and covariate, stable sort, rolling median subtracted, genomic re-sort")
+    for sfi, sn, desc in rules.shared_generators(prog):
+        if sfi.mod == FIX:
+            chk.violate("deterministic-correction", f"{sfi.qn}::{norm(sn)[:70]}", sfi.loc(sn), f"`{norm(sn)[:60]}` draws from a generator that outlives the call ({desc}): a second fix in the same "
+                        "process shuffles differently, so the correction is no longer a function of its inputs")
     chk.rule("deterministic-correction", "center_by_window interpreted on six bins with tied covariate values: the draw is preceded by a constant seed; the rolling median is "
              "taken over log2 in non-decreasing covariate order (ties in the seeded shuffle order); every bin gets the value at its own rank subtracted; the result is "
              "re-sorted; the caller's array is untouched")
